@@ -427,14 +427,14 @@ EXPR_OPS = ["/", "/", "%", "*", "+", "-", "<<", ">>", "&", "|", "==", "<", ">="]
 def hostile_expr(r, depth=0):
     """Arithmetic at the edges of 64-bit signed/unsigned ranges: division and remainder by 0 and -1 of the
     most negative value, shifts by 63/64/65, products that overflow, alignment to odd or huge values."""
-    if depth >= 3 or r.random() < 0.3:
+    if depth >= 0 and (depth >= 3 or r.random() < 0.3):
         return r.choice(EXPR_CONSTS)
     c = r.random()
-    if c < 0.3:
+    if c < 0.3 or depth < 0:
         # directed edge pairs
         mn = r.choice(["(1 << 63)", "0x8000000000000000", "-0x8000000000000000", "(0 - 0x8000000000000000)", "(~0 << 63)"])
         m1 = r.choice(["-1", "~0", "(0 - 1)", "0xffffffffffffffff"])
-        x = r.choice(EXPR_CONSTS)
+        x = r.choice(EXPR_CONSTS[:15] if depth < 0 else EXPR_CONSTS)
         return r.choice([f"({mn} / {m1})", f"({mn} % {m1})", f"({x} / 0)", f"({x} % 0)", f"({x} << 64)", f"({x} >> 65)",
                          f"({mn} * {m1})", f"(-{mn})", f"ALIGN({x}, 0)", f"ALIGN({x}, 3)", f"ALIGN({mn}, {mn})",
                          f"({mn} - 1)", f"(0x7fffffffffffffff + {x})"])
@@ -450,8 +450,9 @@ def hostile_expr(r, depth=0):
 def mutate_text(r, text, tokens, kind):
     c = r.random()
     b = text
-    if kind == "linker-script" and r.random() < 0.15:
-        e = hostile_expr(r)
+    if kind == "linker-script" and r.random() < 0.2:
+        # half of them: one directed edge pair on its own (nothing else in the expression that a parser might reject)
+        e = hostile_expr(r, depth=-1) if r.random() < 0.5 else hostile_expr(r)
         return r.choice([f'ASSERT({e} != 12345, "m")\n', f"sym_x = {e};\n",
                          f"SECTIONS {{ . = {e}; .text : {{ *(.text .text.*) }} }}\n",
                          f"SECTIONS {{ .text : {{ *(.text .text.*) }} . = ALIGN({e}); .data : {{ *(.data) }} }}\n"]), \
